@@ -15,6 +15,10 @@ LEAVES2 = [dict(vec=False, rg=True), dict(vec=False, rg=True)]
 
 def run(ctx):
     if ctx.replay:
+        import json
+        if (json.load(open(ctx.replay))["replay"] or {}).get("spec") == "Modules":
+            from .. import hist_common as HC
+            return HC.replay_file(ctx, ctx.replay, {"grads"}, "Modules", ("replay_modules", "ModReplayer"), set_consts=("Names", "Acts"))
         return AG.replay_file(ctx, ctx.replay, KINDS)
     rep = core.Report(ctx, "model_checking", assumptions=[
         "values are small exact integers; tensors are 0-d (thorough: also shape (2,))",
@@ -71,6 +75,13 @@ def run(ctx):
     for name, consts, num in sims:
         mx, table, c = AG.emit(rep, name, consts, simulate="num=%d" % num, depth=80, seed=ctx.seed + 11, workers=1)
         AG.replay_all(ctx, rep, mx, table, c, KINDS, dtypes=(np.float32,), label=name + ":")
+    # "zero via module" on module TREES (Modules.tla): registrations on a nested module interleaved with gradients and
+    # zero_grad on an ancestor - every reachable parameter is reset, also one registered after the ancestor was first walked
+    from .. import hist_common as HC
+    tree = dict(NMods=2, NLeaf=0, ParSizes=[2], ParRg=[True], Names={"a"}, MaxSeq=0, MaxHist=5, Acts={"setattr", "zero", "grad"})
+    mx, table, c = HC.emit(rep, "Modules", "tree-resets", tree, limit=40000 if ctx.quick else 600000, seed=ctx.seed)
+    # (only what happens to gradients is C04's business: other kinds of divergence do not end a history here)
+    HC.replay_all(ctx, rep, mx, table, c, {"grads"}, ("replay_modules", "ModReplayer"), "Modules", label="tree-resets:", rkw=dict(stop_kinds=["grads"]))
     rep.exhaustive = False
     rep.extra["explanation"] = ("exhaustive within the stated constants for the design and for the replayed histories; deeper histories sampled by TLC -simulate")
     return rep.finish()
